@@ -51,6 +51,16 @@ Fixpoint mdet (n : nat) (A : fmat) : C :=
   | S k => csum (S k) (fun j => alt j (cmul (A 0%nat j) (mdet k (minor A j))))
   end.
 
+(* the same determinant with every partial result reduced to lowest terms (used when evaluating cases:
+   Proofs/SamplerMat.v shows mdetr = mdet) *)
+Fixpoint csum_red (n : nat) (f : nat -> C) : C :=
+  match n with O => c0 | S k => cred (cadd (csum_red k f) (f k)) end.
+Fixpoint mdetr (n : nat) (A : fmat) : C :=
+  match n with
+  | O => c1
+  | S k => csum_red (S k) (fun j => alt j (cred (cmul (A 0%nat j) (mdetr k (minor A j)))))
+  end.
+
 (* ------------------------------------------------------------------------------------------ *)
 (* configuration                                                                              *)
 (* ------------------------------------------------------------------------------------------ *)
